@@ -46,6 +46,7 @@ type Violation struct {
 
 // Ctx is the per-case context.
 type Ctx struct {
+	Worker int
 	Check string
 	ID    string
 	Seed  int64
@@ -237,8 +238,8 @@ func RunCheck(t *testing.T, chk Check) int {
 	}
 	ch := make(chan int)
 	var wg sync.WaitGroup
-	runOne := func(t *testing.T, cs Case, idx int) {
-		c := &Ctx{Check: chk.Prop, ID: cs.ID, Seed: seed, Tier: tier, T: t,
+	runOne := func(t *testing.T, cs Case, worker int) {
+		c := &Ctx{Worker: worker, Check: chk.Prop, ID: cs.ID, Seed: seed, Tier: tier, T: t,
 			Rng:      rand.New(rand.NewSource(seed*1_000_003 + int64(hash(cs.ID)))),
 			counters: map[string]int64{}, nontrivial: map[string]bool{}}
 		journal("START " + cs.ID)
@@ -266,7 +267,7 @@ func RunCheck(t *testing.T, chk Check) int {
 				defer wg.Done()
 				t.Run(fmt.Sprintf("w%d", w), func(t *testing.T) {
 					for i := range ch {
-						runOne(t, cases[i], i)
+						runOne(t, cases[i], w)
 					}
 				})
 			}()
